@@ -257,6 +257,9 @@ def _configs(tier):
                         continue
                     out.append(dict(nprocs=nprocs, nlev=nlev, QI=qi, guess=guess, sweeper='implicit'))
     out.append(dict(nprocs=2, nlev=1, QI='IE', guess='spread', sweeper='imex'))
+    # sweep-dependent preconditioner with several sweeps per iteration on several steps: every clone has to follow the sweep index
+    out.append(dict(nprocs=2, nlev=1, QI='MIN-SR-FLEX', guess='spread', sweeper='implicit', nsweeps=2))
+    out.append(dict(nprocs=3, nlev=1, QI='MIN-SR-FLEX', guess='zero', sweeper='implicit', nsweeps=3))
     return out
 
 
@@ -274,7 +277,7 @@ def _make(cf, extra_hooks=()):
         d = dict(problem_class=test_equation_IMEX, problem_params=dict(lambdas_implicit=lam * 0.6, lambdas_explicit=lam * 0.4, u0=1.0), sweeper_class=imex_1st_order)
     else:
         d = dict(problem_class=testequation0d, problem_params=dict(lambdas=lam, u0=1.0), sweeper_class=generic_implicit)
-    d.update(sweeper_params=sp, level_params=dict(dt=0.125, restol=1e-9), step_params=dict(maxiter=6))
+    d.update(sweeper_params=sp, level_params=dict(dt=0.125, restol=1e-9, **({'nsweeps': cf['nsweeps']} if cf.get('nsweeps') else {})), step_params=dict(maxiter=25 if cf.get('nsweeps') else 6))
     if cf['nlev'] == 2:
         d['space_transfer_class'] = mesh_to_mesh
     return controller_nonMPI(num_procs=cf['nprocs'], controller_params=dict(logger_level=40, hook_class=[LogSolution] + list(extra_hooks), dump_setup=False, mssdc_jac=False), description=d)
@@ -362,7 +365,18 @@ def bounded_runs(tier, seed):
                              failures=sum(1 for o in obs if o['status'] != 'proved')))
 
 
-CONTRACTS = [RestartBlockPoison, ResetStats, ReturnStats]
+def _history_free_callees():
+    # two mechanisms whose failure shows only in SEQUENCES of runs / records and that are under contract elsewhere:
+    #   Hooks.add_to_stats builds every key from its own arguments (C14: a field the caller omits is None, whatever was recorded before)
+    #   it_fine refreshes the sweep-dependent preconditioner of EVERY running step (C07: the steps are separate clones; a step whose
+    #   coefficients were left at another sweep's values would carry them into the next block or run)
+    from contracts.C14_stats import HooksBase
+    from contracts.C07_block import ItFine
+
+    return [type(b.__name__ + '_C19', (b,), dict(prop='C19')) for b in (HooksBase, ItFine)]
+
+
+CONTRACTS = [RestartBlockPoison, ResetStats, ReturnStats] + _history_free_callees()
 EXTRAS = [bounded_runs]
 ASSUMPTIONS = ['determinism of numpy / float operations for identical inputs', 'bit identity is decided only by the bounded differential runs']
 UNDECIDED = ['class-level state of FrozenClass.attrs (status variable names registered by one controller are accepted by all): reported, not an obligation',
